@@ -26,6 +26,7 @@ import time
 import traceback
 
 from .chooser import Chooser, mix_seed
+from .paths import REPO
 
 VERIF = os.path.dirname(os.path.dirname(os.path.abspath(__file__)))
 SHM = "/dev/shm/pv"
@@ -62,8 +63,8 @@ def ensure_env():
         "PYTHONDONTWRITEBYTECODE": "1",
     }
     pp = os.environ.get("PYTHONPATH", "").split(":")
-    if pp[:2] != ["/repo", VERIF]:
-        want["PYTHONPATH"] = "/repo:" + VERIF
+    if pp[:2] != [REPO, VERIF]:
+        want["PYTHONPATH"] = REPO + ":" + VERIF
     if any(os.environ.get(k) != v for k, v in want.items()):
         env = dict(os.environ)
         env.update(want)
@@ -89,10 +90,10 @@ def warm():
         for n, m in list(sys.modules.items())
         if n.startswith("pydra.")
         and getattr(m, "__file__", None)
-        and not m.__file__.startswith("/repo/")
+        and not m.__file__.startswith(REPO + "/")
     ]
     if bad:
-        raise RuntimeError(f"pydra modules not loaded from /repo: {bad[:3]}")
+        raise RuntimeError(f"pydra modules not loaded from {REPO}: {bad[:3]}")
     from . import workload
 
     d = os.path.join(SHM, f"warm-{os.getpid()}")
